@@ -30,6 +30,7 @@ def build_manager(I, k, current, template_cats=None):
     callbacks.install(I)
     mcls = I.repo.cls(USM)
     mgr = SRef(P.alloc(HObj(mcls, region="manager")))
+    mgr.o.really_constructed = True  # built by the real __init__ below
     I.call_function(SFunc(mcls.find_method("__init__")), [mgr], {})
     ucls = SClass(I.repo.cls(US))
     systems = []
